@@ -114,6 +114,14 @@ def fill(det, cont):
         elif c == "data":
             det.data["/probe/a"] = xr.DataTree(xr.Dataset({"v": ("k", rng.uniform(0, 1, size=3))}, coords={"k": [0, 1, 2]}))
             det.data["/other"] = xr.DataTree(xr.Dataset({"w": (("i", "j"), rng.uniform(0, 1, size=(2, 2)))}))
+            shape_kind = int(rng.randint(0, 4))  # groups without data variables: only coordinates / only attributes / nothing at all
+            if shape_kind == 1:
+                det.data["/grid"] = xr.DataTree(xr.Dataset(coords={"wl": [400.0, 500.0, 600.0]}))
+                det.data["/grid/child"] = xr.DataTree(xr.Dataset({"t": ("wl", rng.uniform(0, 1, size=3))}))
+            elif shape_kind == 2:
+                det.data["/meta"] = xr.DataTree(xr.Dataset(attrs={"origin": "probe", "n": 3}))
+            elif shape_kind == 3:
+                det.data["/empty_leaf"] = xr.DataTree()
 
 
 def snapshot(det) -> dict:
@@ -151,6 +159,7 @@ def _tree(dt) -> dict:
     res = {}
     for node in dt.subtree:
         ds = node.to_dataset(inherit=False)
+        res[f"{node.path}:"] = ((), np.array(sorted(f"{k}={v!r}" for k, v in ds.attrs.items()), dtype=str))  # the group itself and its attributes
         for name, da in ds.variables.items():
             res[f"{node.path}:{name}"] = (tuple(da.dims), np.array(da.values, copy=True))
     return res
@@ -162,7 +171,7 @@ def compare(a, b, rec, clause, prefix=""):
             # equal arrays of the same kind of type (float / unsigned): a widened but value-identical dtype is still "equal"
             if not (isinstance(x, np.ndarray) and isinstance(y, np.ndarray)) or x.dtype.kind != y.dtype.kind or x.shape != y.shape:
                 return False
-            if x.dtype.kind == "u":
+            if x.dtype.kind in "uUSO":
                 return x.astype(object).tolist() == y.astype(object).tolist()
             return bool(np.array_equal(x.astype(np.float64), y.astype(np.float64), equal_nan=x.dtype.kind == "f"))
         if isinstance(x, tuple) and isinstance(y, tuple):
